@@ -139,6 +139,16 @@ func c20(r *Report) {
 	}
 	c20LegacyNotStrictDependent(r, ld)
 	c20Secrets(r)
+	// the filter itself: the next loader is consulted only for a URL that equals an allow-list entry (no prefix/substring match)
+	fl := p.Func("jsonld", "filteredDocumentLoader", "LoadDocument")
+	r.Gate(Gate{ID: "C20.jsonld.filter-is-exact-match", Fn: fl, Effect: CallEffect(Callee{Desc: "nextLoader.LoadDocument", M: func(cc *ssa.CallCommon) bool { return cc.IsInvoke() && cc.Method.Name() == "LoadDocument" }}),
+		Check: CmpCheck("allowedURL == u", token.EQL, AnyV(), ParamV("u"), true)})
+	// the remote-context filter is installed whenever unlisted external calls are not allowed — no further condition
+	ncl := p.Func("jsonld", "", "NewContextLoader")
+	r.MustReach(MustReach{ID: "C20.jsonld.filter-installed-when-strict", Fn: ncl, SuccessOnly: true,
+		Cond:   Check{Desc: "allowUnlistedExternalCalls is false", Pass: IsFalse, Values: func(fn *ssa.Function) []ssa.Value { return paramValues(fn, "allowUnlistedExternalCalls") }},
+		Target: Fn("jsonld", "", "NewFilteredLoader")})
+	r.ArgIs("C20.url.ip-test-on-hostname", p.Func("core", "", "ParsePublicURLWithScheme"), Fn("std:net", "", "ParseIP"), 0, CallV(Fn("std:net/url", "URL", "Hostname"), -1), 1)
 }
 
 func c20ParsePublicURL(r *Report, pu *ssa.Function) {
@@ -615,4 +625,27 @@ func valueNonNilErr(p *Prog, v ssa.Value) bool {
 		}
 	}
 	return false
+}
+
+// paramValues: the parameter named name (and loads of its spill cell, when a closure captures it).
+func paramValues(fn *ssa.Function, name string) []ssa.Value {
+	var out []ssa.Value
+	for _, p := range fn.Params {
+		if p.Name() != name {
+			continue
+		}
+		out = append(out, p)
+		for _, ref := range *p.Referrers() {
+			if st, ok := ref.(*ssa.Store); ok {
+				if a, ok := st.Addr.(*ssa.Alloc); ok {
+					for _, r2 := range *a.Referrers() {
+						if ld, ok := r2.(*ssa.UnOp); ok && ld.Op == token.MUL {
+							out = append(out, ld)
+						}
+					}
+				}
+			}
+		}
+	}
+	return out
 }
